@@ -48,6 +48,8 @@ pub async fn worker(
 		let action = Handler::new(events.clone(), jobs.clone());
 
 		debug!("running action handler");
+		#[cfg(watchexec_verif)]
+		watchexec_supervisor::verif::emit("handler_call", events.len(), jobs.len());
 		let action = match config.action_handler.call(action) {
 			ActionReturn::Sync(action) => action,
 			ActionReturn::Async(action) => Box::into_pin(action).await,
